@@ -348,6 +348,7 @@ class List(list, base.Symbolic, pg_typing.CustomTyping):
       self, path_value_pairs: typing.Dict[utils.KeyPath, Any]
   ) -> typing.List[base.FieldUpdate]:
     """Subclass specific rebind implementation."""
+    self._ensure_rebind_targets_writable(path_value_pairs)
     updates = []
 
     # Apply the updates in reverse order, so the operated path will not alter
